@@ -86,6 +86,10 @@ class Job:
         env["VERIF_TIER"] = self.tier
         env["VERIF_SEED_EFF"] = str(self.seed)
         env.update(self.spec.get("env", {}))
+        gmp = self.spec.get("gomaxprocs")
+        if gmp and self.tier == "thorough":
+            # schedule perturbation: shards of one sub-property run with different numbers of Ps
+            env["GOMAXPROCS"] = str(gmp[self.shard % len(gmp)])
         if self.race:
             env["GORACE"] = "halt_on_error=0 exitcode=0"
         spec = self.spec
